@@ -1041,6 +1041,36 @@ func ruleG11b(c *Ctx) *RuleResult {
 	return r
 }
 
+// shiftsQueue: fn moves the entries of the queue one place towards the front (copy(q, q[1:]) or an element loop).
+func shiftsQueue(fn *ssa.Function, qF *types.Var) bool {
+	found := false
+	allInstrs(fn, func(in ssa.Instruction) {
+		switch x := in.(type) {
+		case *ssa.Call:
+			if b, ok := x.Call.Value.(*ssa.Builtin); ok && b.Name() == "copy" {
+				if sl, ok := x.Call.Args[1].(*ssa.Slice); ok && sl.Low != nil {
+					if f, _ := loadedField(sl.X); f == qF {
+						found = true
+					}
+				}
+			}
+		case *ssa.Store:
+			if ia, ok := x.Addr.(*ssa.IndexAddr); ok {
+				if f, _ := loadedField(ia.X); f == qF {
+					if ld, ok := x.Val.(*ssa.UnOp); ok && ld.Op == token.MUL {
+						if ia2, ok := ld.X.(*ssa.IndexAddr); ok {
+							if add, ok := ia2.Index.(*ssa.BinOp); ok && add.Op == token.ADD && add.X == ia.Index {
+								found = true
+							}
+						}
+					}
+				}
+			}
+		}
+	})
+	return found
+}
+
 func ruleF25(c *Ctx) *RuleResult {
 	r := &RuleResult{Floor: 2, FloorWhat: "modifications of the client segment queue"}
 	qF := c.Field("", "clientSegmentQueue", "queue")
@@ -1081,6 +1111,10 @@ func ruleF25(c *Ctx) *RuleResult {
 						}
 					case *ssa.Slice:
 						if f, _ := loadedField(v.X); f == qF {
+							if v.Low == nil && v.High != nil && !shiftsQueue(fn, qF) {
+								r.fail(key, c.Pos(x.Pos()), FuncName(fn), what, "queue[:n] drops the tail although nothing shifted the entries towards the front: the newest entry (possibly the end-of-stream marker) is lost, or — if an entry was moved into the head first — the order of delivery changes")
+								return
+							}
 							r.ok(key, c.Pos(x.Pos()), FuncName(fn), what, "re-slice")
 							return
 						}
@@ -1091,6 +1125,32 @@ func ruleF25(c *Ctx) *RuleResult {
 						}
 					}
 					r.undecided("F25: %s stores %s into the queue: form not known to the rule", FuncName(fn), x.Val.String())
+				}
+				// a store into an element of the queue: only clearing (nil) or a forward shift q[i] = q[i+1]
+				if ia, ok := x.Addr.(*ssa.IndexAddr); ok {
+					if f, _ := loadedField(ia.X); f == qF {
+						n++
+						per[fn]++
+						key := fmt.Sprintf("%s|queue-elem-store#%d", FuncName(fn), per[fn])
+						what := "an entry of the queue is only cleared or shifted one place towards the front"
+						if k, isC := x.Val.(*ssa.Const); isC && k.IsNil() {
+							r.ok(key, c.Pos(x.Pos()), FuncName(fn), what, "cleared")
+							return
+						}
+						if ld, ok := x.Val.(*ssa.UnOp); ok && ld.Op == token.MUL {
+							if ia2, ok := ld.X.(*ssa.IndexAddr); ok {
+								if f2, _ := loadedField(ia2.X); f2 == qF {
+									if add, ok := ia2.Index.(*ssa.BinOp); ok && add.Op == token.ADD && add.X == ia.Index {
+										if one, ok := constInt(add.Y); ok && one == 1 {
+											r.ok(key, c.Pos(x.Pos()), FuncName(fn), what, "q[i] = q[i+1]")
+											return
+										}
+									}
+								}
+							}
+						}
+						r.fail(key, c.Pos(x.Pos()), FuncName(fn), what, "queue["+describeVal(ia.Index)+"] is overwritten with "+describeVal(x.Val)+": entries change place, so segments are processed out of download order (or the end-of-stream marker overtakes a segment) whenever three or more are queued")
+					}
 				}
 			case *ssa.Call:
 				b, ok := x.Call.Value.(*ssa.Builtin)
